@@ -26,7 +26,11 @@ Misc == << T_rec(<<P("u8"), P("u64"), P("u8")>>), T_rec(<<P("u8"), P("u16"), P("
            \* variants that own heap data at a non-zero offset of their container (payload offsets relative to the variant, not the block)
            T_tup(<<P("u32"), T_res(P("string"), P("string"))>>), T_rec(<<P("u64"), T_opt(P("string"))>>),
            T_list(T_rec(<<P("u64"), T_opt(P("string"))>>)), T_tup(<<P("u8"), T_var(<<P("f32"), P("string")>>)>>),
-           T_rec(<<P("u8"), T_opt(T_list(P("u16"))), T_res(P("u64"), T_list(P("string")))>>) >>
+           T_rec(<<P("u8"), T_opt(T_list(P("u16"))), T_res(P("u64"), T_list(P("string")))>>),
+           \* lists whose all-numeric element has three or more fields of different widths: a backend that copies such a list
+           \* wholesale relies on its own in-memory layout of the element being the canonical one
+           T_list(T_tup(<<P("u8"), P("u16"), P("u32")>>)), T_list(T_tup(<<P("u8"), P("u32"), P("u8")>>)),
+           T_list(T_rec(<<P("u8"), P("u64"), P("u16")>>)), T_list(T_tup(<<P("f32"), P("u8"), P("f64"), P("u16")>>)) >>
 Reps == << P("u8"), P("u64"), P("f32"), P("string"), T_list(P("u8")), T_list(P("string")), T_opt(P("u32")),
            T_tup(<<P("u8"), P("u64")>>), T_var(<<P("f32"), P("string")>>), T_flags(9),
            T_res(P("string"), P("u16")), T_rec(<<P("string"), P("s16")>>), T_enum(3) >>
